@@ -1,5 +1,5 @@
 """Entry point: python3 -m tj.check <Cxx> [--tier quick|thorough] [--replay report.json]"""
-import argparse, importlib, json, os, sys, traceback
+import argparse, importlib, json, os, signal, sys, traceback
 from .build import Build, Broken
 from .core import Check
 
@@ -22,6 +22,16 @@ def main(argv=None):
         print("ANALYSIS-BROKEN property=%s reason=no rule module (%s)" % (pid, e))
         return 2
     ck = Check(pid, a.tier, seed, getattr(mod, "LEVEL", "other"))
+    # work budget: an analysis that does not converge on unfamiliar code is "cannot decide" (exit 2), never a hang
+    budget = int(os.environ.get("TJ_TIME_BUDGET", "600" if a.tier == "quick" else "1800"))
+
+    def _alarm(signum, frame):
+        raise Broken("analysis did not finish within its time budget of %d s: the path exploration does not converge on this code (unrecognised loop structure)" % budget)
+    try:
+        signal.signal(signal.SIGALRM, _alarm)
+        signal.alarm(budget)
+    except (ValueError, AttributeError):
+        pass
     try:
         b = Build()
         mod.run(ck, b)
